@@ -270,7 +270,7 @@ int Float_Show(var self, var output, int pos) {
 }
 
 int Float_Look(var self, var input, int pos) {
-  return scan_from(input, pos, "%f", self);
+  return scan_from(input, pos, "%lf", self);
 }
 
 var Float = Cello(Float,
